@@ -1140,6 +1140,8 @@ class WCS(GWCSAPIMixin):
         with_units = kwargs.pop("with_units", False)
         if 'with_bounding_box' not in kwargs:
             kwargs['with_bounding_box'] = True
+        # astropy takes anything that is not a Python bool (np.False_, 0) as True
+        kwargs['with_bounding_box'] = bool(kwargs['with_bounding_box'])
         if 'fill_value' not in kwargs:
             kwargs['fill_value'] = np.nan
 
